@@ -45,6 +45,40 @@ Definition sig_genuine (allowed : list string) (ks : keyset) (t : token) (parsed
   | _, _ => false
   end.
 
+(* "kid-less ambiguity is reported, not guessed": k is the key a published list
+   DESIGNATES for (kid, alg) - a key whose non-empty kid equals the header's, or,
+   when there is no such key, the ONLY key that could match at all *)
+Definition designated (kid alg : string) (keys : list jwk) (k : jwk) : bool :=
+  match exact_keys kid "sig" alg keys, loose_keys kid "sig" alg keys with
+  | (_ :: _) as ex, _ => existsb (jwk_eqb k) ex
+  | [], [k'] => jwk_eqb k' k
+  | _, _ => false
+  end.
+
+Definition unambiguous_in (e : sigentry) (p : string) (keys : list jwk) : bool :=
+  existsb (fun k => designated (se_kid e) (se_alg e) keys k && sym_verify k e p) keys.
+
+(* the signature was made by the key that one of the key set's published lists
+   (the provider's list; the cached or the served list of a remote key set)
+   designates for the header - not by one of several equally possible keys *)
+Definition sig_unambiguous (ks : keyset) (t : token) : bool :=
+  match tok_sigs t, tok_payload t with
+  | [e], Some p =>
+      match ks with
+      | KSOpenID (Some keys) => unambiguous_in e p keys
+      | KSOpenID None => false
+      | KSRemote cached served _ =>
+          unambiguous_in e p cached
+          || match served with Some l => unambiguous_in e p l | None => false end
+      | _ => true
+      end
+  | _, _ => false
+  end.
+
+(* what C02 demands of an acceptance *)
+Definition sig_believable (allowed : list string) (ks : keyset) (t : token) (parsed : string) : bool :=
+  sig_genuine allowed ks t parsed && sig_unambiguous ks t.
+
 Definition sig_alg (t : token) : string :=
   match tok_sigs t with [e] => se_alg e | _ => "" end.
 
